@@ -33,6 +33,8 @@ pub mod swift_message;
 pub mod traits;
 pub mod utils;
 pub mod validation_result;
+#[cfg(feature = "verif-hooks")]
+pub mod verif_hooks;
 
 // Plugin module for dataflow-rs integration
 pub mod plugin;
